@@ -1134,6 +1134,133 @@ def check_asm_format(case, col, quick):
                     break
 
 
+# ------------------------------------------------------------------ the log at every level, and the files of refused runs
+
+
+def case_tags_single():
+    """one haplotype; the Painted chromosomes carry two and three tags besides Painted (Target, Singleton, Unloc)"""
+    S, N = g.S, g.N
+    return {
+        "name": "tags-single",
+        "bpt": 10.0,
+        "seed": 31,
+        "scaffolds": [
+            {"name": "scaffold_1", "pieces": [S(3000)]},
+            {"name": "scaffold_2", "pieces": [S(1000), N(200), S(800)]},
+            {"name": "scaffold_3", "pieces": [S(600)]},
+            {"name": "scaffold_4", "pieces": [S(500)]},
+            {"name": "scaffold_5", "pieces": [S(400)]},
+            {"name": "scaffold_6", "pieces": [S(1500)]},
+        ],
+        "pretext": [
+            [["scaffold_1", 1, 3000, 1, ["Painted", "Target"]], ["GAP", 100], ["scaffold_3", 1, 600, 1, ["Painted", "Target", "Unloc"]]],
+            [["scaffold_2", 1, 2000, -1, ["Painted", "Target", "Singleton"]], ["GAP", 100], ["scaffold_4", 1, 500, 1, ["Target", "Unloc", "Singleton", "Painted"]]],
+            [["scaffold_6", 1, 1500, 1, ["Target", "Haplotig"]]],
+            [["scaffold_5", 1, 400, 1, []]],
+        ],
+    }
+
+
+def case_tags_haps(refused=False):
+    """
+    two haplotypes, every Painted chromosome tagged Target, some Singleton, some with an Unloc piece.  refused: the same
+    Pretext scaffolds in an order in which Hap1 has two chromosomes in a row without a Singleton between them - the tool
+    must refuse the map (chromosome naming error; the table of groups goes into the log), the same way every time.
+    """
+    sizes = {"HAP1_SCAFFOLD_1": 4000, "HAP2_SCAFFOLD_1": 3600, "HAP1_SCAFFOLD_2": 2200, "HAP2_SCAFFOLD_2": 2000, "HAP1_SCAFFOLD_3": 600, "HAP2_SCAFFOLD_3": 500, "HAP1_SCAFFOLD_4": 1400, "HAP1_SCAFFOLD_5": 300}  # fmt: skip
+
+    def whole(name, tags, strand=1):
+        return [name, 1, sizes[name], strand, tags]
+
+    pretext = [
+        [whole("HAP1_SCAFFOLD_1", ["Painted", "Hap1", "Target"]), ["GAP", 100], whole("HAP1_SCAFFOLD_3", ["Painted", "Hap1", "Target", "Unloc"])],
+        [whole("HAP2_SCAFFOLD_1", ["Painted", "Hap2", "Target"]), ["GAP", 100], whole("HAP2_SCAFFOLD_3", ["Unloc", "Target", "Hap2", "Painted"])],
+        [whole("HAP1_SCAFFOLD_2", ["Painted", "Hap1", "Target", "Singleton"], -1), ["GAP", 100], whole("HAP1_SCAFFOLD_5", ["Singleton", "Painted", "Unloc", "Hap1", "Target"])],
+        [whole("HAP1_SCAFFOLD_4", ["Painted", "Hap1", "Target"])],
+        [whole("HAP2_SCAFFOLD_2", ["Painted", "Hap2", "Target"])],
+    ]
+    if refused:
+        pretext = [pretext[i] for i in (0, 3, 1, 2, 4)]
+    return {
+        "name": "tags-haps-refused" if refused else "tags-haps",
+        "bpt": 20.0,
+        "seed": 32,
+        "scaffolds": [{"name": n, "pieces": [g.S(size)]} for n, size in sizes.items()],
+        "pretext": pretext,
+    }
+
+
+def case_tags_random(rng, k):
+    """
+    random map of Painted chromosomes (one or two haplotypes) whose pieces carry random subsets of Target / Singleton / Unloc
+    in random order; with two haplotypes the order of the chromosomes is random too, so some of these maps are refused.
+    """
+    haps = rng.choice(([None], ["Hap1", "Hap2"], ["Hap1", "Hap2"]))
+    target = rng.random() < 0.7
+    scaffolds, pretext = [], []
+    n = 0
+    for _ in range(rng.randint(2, 3)):
+        for hap in haps:
+            group_tags = ["Painted"] + ([hap] if hap else []) + (["Target"] if target and rng.random() < 0.9 else []) + (["Singleton"] if rng.random() < 0.5 else [])
+            rows = []
+            for j in range(rng.choice((1, 2, 2, 3))):
+                n += 1
+                name = f"{hap.upper()}_SCAFFOLD_{n}" if hap else f"scaffold_{n}"
+                size = 100 * rng.randint(3, 9) if j else 500 * rng.randint(3, 9)
+                scaffolds.append({"name": name, "pieces": [g.S(size)]})
+                tags = group_tags + (["Unloc"] if j else [])
+                rng.shuffle(tags)
+                rows += ([["GAP", 100]] if rows else []) + [[name, 1, size, rng.choice((1, -1)), tags]]
+            pretext.append(rows)
+    if len(haps) > 1 and rng.random() < 0.5:
+        rng.shuffle(pretext)
+    return {"name": f"tags-rand{k}", "bpt": 10.0, "seed": 3100 + k, "scaffolds": scaffolds, "pretext": pretext}
+
+
+def check_log_levels(case, col, levels, seeds, in_fmt="agp"):
+    """
+    The same command on the same files at each --log-level of `levels` (None: the default level), once per entry of `seeds`
+    (a PYTHONHASHSEED value for a fresh interpreter, or "inprocess"): exit status and all files left in the (fresh) output
+    directory - the log too, also when the tool refuses the map - must be those of the first run.
+    """
+    with tempfile.TemporaryDirectory() as root:
+        root = pathlib.Path(root)
+        ins = g.write_inputs(case, root, formats=(in_fmt,))
+        if in_fmt == "fa":
+            build_cache(ins["fa"])  # every run finds the same valid cache: no warning lines with paths in the log
+        for level in levels:
+            first = None
+            for k, seed in enumerate(seeds):
+                if col.full:
+                    return
+                out = root / f"o_{level}_{k}"
+                out.mkdir()
+                args = ["-a", ins[in_fmt], "-p", ins["pretext"], "-o", out / f"{OUT}.{in_fmt}"] + (["--log-level", level] if level else [])
+                if seed == "inprocess":
+                    code = g.run_pretext_to_asm(args, cwd=root)[0]
+                else:
+                    code = g.run_subprocess(P2A, args, cwd=root, hashseed=seed)[0]
+                snap = g.snapshot(out)
+                shutil.rmtree(out, ignore_errors=True)
+                inp = {"kind": "levels", "case": case, "level": level, "in_fmt": in_fmt, "seeds": [first[0] if first else seed, seed]}
+                col.case((case["name"], "level", level, in_fmt, seed), sample=inp if k == 1 and level == "DEBUG" else None)
+                if first is None:
+                    first = (seed, code, snap)
+                    continue
+                d = f"exit status {first[1]} vs {code}" if code != first[1] else diff_snapshots(first[2], snap)
+                if d:
+                    how = lambda x: "in this process" if x == "inprocess" else f"under PYTHONHASHSEED={x}"  # noqa: E731
+                    col.fail(
+                        f"case {case['name']}: pretext-to-asm {'--log-level ' + level if level else 'at the default log level'} on the same input files "
+                        f"({in_fmt} input), run {how(first[0])} and {how(seed)}"
+                        + (" does not end the same way" if code != first[1] else f", is refused both times (exit status {code}) but leaves different files" if code else " writes different files")
+                        + f": {d} - the files written (the .log is one of them, at every log level and for a refused map too) depend on the hash seed / "
+                        "on the process, not only on the input files",
+                        inp,
+                    )
+                    break
+
+
 def check_specimen(spec_dir, col):
     specimen = spec_dir.name
     version = ""
@@ -1194,6 +1321,8 @@ def replay(inp):
                 for k in range(1, 7):
                     if not col.failures:
                         compare(work, inp["ref"], ref, dict(cfg, pre=cfg["pre"] + k), col)
+    elif inp["kind"] == "levels":
+        check_log_levels(inp["case"], col, [inp["level"]], inp["seeds"], inp.get("in_fmt", "agp"))
     elif inp["kind"] == "session":
         check_sessions(inp["cases"], [inp["steps"]], col)
     elif inp["kind"] == "asm-format":
@@ -1226,6 +1355,13 @@ def run(tier, seed, **opts):
         "earlier invocations byte-identical to what they were when those finished, and the invocation's own files / exit status / "
         "STDOUT those of a fresh interpreter (quick: all ordered pairs over 3 kinds of invocation + 2 sessions of 6-7; thorough: all "
         "ordered pairs over 8 kinds x 3 pairs of cases + 120 seeded random sessions of 3-7); "
+        "every generated case also with -a / -p spelled relative to the working directory and as absolute paths with a detour, from "
+        "other working directories, cache cold: all files incl. the index cache files written beside the FASTA compared with the reference run "
+        "(the cache files are compared between all runs that write them); "
+        "maps whose Painted chromosomes carry 2-3 of the tags Target / Singleton / Unloc (one haplotype, two haplotypes, and two haplotypes in an "
+        "order the tool refuses with a chromosome naming error" + ("" if quick else "; 12 seeded random ones; the general cases") + ") run at --log-level DEBUG"
+        + (" / default" if quick else " / default / WARNING, agp and FASTA input,") + " under " + ("2-3" if quick else "6") + " hash seeds and in process: exit "
+        "status and all files, the log of a refused run included, identical; "
         "non-trivial = distinct (case, run configuration) compared with the reference run"
     )
     cases = [g.case_cut(), g.case_haps(), g.case_multi()]
@@ -1252,6 +1388,26 @@ def run(tier, seed, **opts):
             check_history(ties, col, reps, n_pre, seed)
         finally:
             _HOLD.clear()
+    # the log at other levels than the default, and the files left by refused runs, under several hash seeds
+    tag_cases = [case_tags_single(), case_tags_haps(), case_tags_haps(refused=True)]
+    if quick:
+        level_plan = [
+            (tag_cases[0], ["DEBUG"], [0, 1, 2, "inprocess"], "agp"),
+            (tag_cases[1], ["DEBUG"], [0, 3, "inprocess"], "agp"),
+            (tag_cases[2], [None], [0, 1, "inprocess"], "agp"),
+            (tag_cases[2], ["DEBUG"], [0, 2], "agp"),
+        ]
+    else:
+        tag_cases += [case_tags_random(rng, k) for k in range(12)]
+        seeds = [0, 1, 2, 3, 7, "random", "inprocess"]
+        level_plan = [(case, [None, "DEBUG", "WARNING"], seeds, "agp") for case in tag_cases]
+        level_plan += [(case, ["DEBUG"], seeds[:4], "fa") for case in tag_cases[:5]]
+        level_plan += [(case, ["DEBUG"], seeds, "agp") for case in cases]
+    n_levels = 0
+    for case, levels, seeds, in_fmt in level_plan:
+        if not col.full:
+            check_log_levels(case, col, levels, seeds, in_fmt)
+            n_levels += len(levels) * len(seeds)
     n_spec = 0
     if not quick and SPECIMENS.is_dir():
         for spec in sorted(p for p in SPECIMENS.iterdir() if p.is_dir()):
@@ -1266,6 +1422,9 @@ def run(tier, seed, **opts):
         + ("7 + 4 (first case) or 4 re-runs into a used output directory); 3 cases in " if quick else "up to 11 + 3 re-runs into a used output directory for each of FASTA / AGP / TPF output); 3 cases in ")
         + ("6" if quick else "6") + f" orders in one process; asm-format 3-4 conversions x 4 runs; {n_spec} specimens x 2 hash seeds; "
         f"{len(plans)} sessions of 2-7 unreset in-process invocations; "
+        f"{n_levels} runs of {len(tag_cases)} multi-tag maps" + ("" if quick else f" and {len(cases)} general cases") + " at --log-level DEBUG / default"
+        + ("" if quick else " / WARNING") + " under different hash seeds; "
+        + ("2 + 2 (first case: 4)" if quick else "13") + " runs per case with the input paths spelled relative / with a detour; "
         f"{len(ties)} tie maps x (1 reference + {n_pre} pre-used fresh interpreters + {reps} in-process runs in shuffled rounds with churn / gc modes)",
         exhaustive=False,
     )
